@@ -10,6 +10,10 @@ CHECKS = {
          "real-arithmetic reading of float64; C kernels (LAPACK/scipy.stats) replaced by validated contract stubs; dims <= 4; z3 5.1 is trusted"),
  'C04': ("for every listed family, parameterisation (scalar/vector/diag/dense/sparse-switch), dimension <= 3 and ALL parameter values and evaluation points: logpdf/logd/pdf/cdf equal the documented normalised density (SMT identity / 1e-9 tolerance over a box for concrete float matrices)",
          "real-arithmetic reading of float64; scipy.stats logpdfs replaced by documented closed forms; reference densities written from docstrings; concrete matrices from a small-integer family"),
+ 'C01': ("for the model graphs a-d (Gaussian/GMRF/LMRF/Gamma factors, linear models, hyper-parameters through one- and two-argument callables) and every DAG on <=3 (quick) / <=4 (thorough) uninterpreted factors: every subset of variables fixed, in every ordered partition into <=2/3 conditioning calls, by keyword or position, evaluates to joint.logd(complete assignment) for ALL values; stacked / posterior / multiple-likelihood / BayesianProblem views agree; malformed evaluations raise",
+         "real-arithmetic reading of float64; values boxed to |v|<=64 where float constants occur (tolerance 1e-9); a reduced single density refusing a further conditioning call counts as a refusal, not as a violation"),
+ 'C20': ("exhaustive over sizes (1D n=2..6/8, 2D up to 3x3/4x4), boundary conditions, orders 0-2 and spacings: operator rows equal reference stencils applied to a symbolic vector, 2D = documented Kronecker stacking, precision = D^T D, symmetric, x^T P x = |Dx|^2, null space exactly the one implied by the bc (both inclusions as SMT implications), GMRF rank / sqrtprec / log-determinant consistent with the precision",
+         "reference stencils written by loops from the documentation; the undocumented 'backward' rows are compared up to sign; float Cholesky factors enter as exact rationals with tolerance"),
 }
 
 NA = {}
